@@ -1,6 +1,7 @@
 package c06
 
 import (
+	"os"
 	"bytes"
 	"fmt"
 	"sort"
@@ -48,6 +49,12 @@ func buildStateOpt(t *rapid.T, forPool bool) (*node.Node, []string) {
 	}
 	changes := rapid.IntRange(0, 2).Draw(t, "changes")
 	changeAt := map[int]bool{}
+	// pool cases on long chains: half of them with an EARLY change that stays uncertified (certification lagging more than
+	// 100 blocks behind finality: the commits for that height are the old ones the pool keeps and re-selects)
+	earlyLag := forPool && long && rapid.Bool().Draw(t, "earlyLag")
+	if earlyLag {
+		changeAt[rapid.IntRange(2, 12).Draw(t, "changeAtEarly")] = true
+	}
 	for i := 0; i < changes; i++ {
 		if forPool && long {
 			changeAt[rapid.IntRange(length-40, length-6).Draw(t, "changeAtLate")] = true
@@ -64,7 +71,7 @@ func buildStateOpt(t *rapid.T, forPool bool) (*node.Node, []string) {
 		// occasionally certify part of the chain through a block's aggregate commit
 		_, pc, cert := n.Heights()
 		lateQuiet := forPool && long && i > length-50 // keep a wide uncertified range so that gossiped commits are not discarded as stale
-		if pc > cert && !lateQuiet && rapid.IntRange(0, 7).Draw(t, "agg") == 0 {
+		if pc > cert && !lateQuiet && !earlyLag && rapid.IntRange(0, 7).Draw(t, "agg") == 0 {
 			hi := pc
 			if nh, ok := n.NextParamHeight(cert + 1); ok && nh-1 < hi {
 				hi = nh - 1
@@ -318,6 +325,43 @@ func encodeCommits(cs ...*certificate.SingleCommit) []byte {
 	return (&consensus.EventPostSingleCommits{SingleCommits: cs}).Encode()
 }
 
+func putUvarint(b []byte, v uint64) []byte {
+	for v >= 0x80 {
+		b = append(b, byte(v)|0x80)
+		v >>= 7
+	}
+	return append(b, byte(v))
+}
+
+// relabelled returns the encoding of a genuine single commit with only its height field rewritten (block ID, signer and
+// signature untouched): what a relaying peer can forge without any key.
+func relabelled(sc *certificate.SingleCommit, height uint32) []byte {
+	var b []byte
+	b = append(b, 0x0a)
+	b = putUvarint(b, uint64(len(sc.BlockID())))
+	b = append(b, sc.BlockID()...)
+	b = append(b, 0x10)
+	b = putUvarint(b, uint64(height))
+	b = append(b, 0x1a)
+	b = putUvarint(b, uint64(len(sc.ValidatorAddress())))
+	b = append(b, sc.ValidatorAddress()...)
+	b = append(b, 0x22)
+	b = putUvarint(b, uint64(len(sc.CertificateSignature())))
+	b = append(b, sc.CertificateSignature()...)
+	return b
+}
+
+// rawCommitsMessage wraps encoded single commits into a postSingleCommits payload.
+func rawCommitsMessage(commits ...[]byte) []byte {
+	var b []byte
+	for _, c := range commits {
+		b = append(b, 0x0a)
+		b = putUvarint(b, uint64(len(c)))
+		b = append(b, c...)
+	}
+	return b
+}
+
 // (b) self-consistency: what the node assembles from its pool is accepted by its own verification, and only sound
 // single commits enter the pool.
 func TestPoolSelfConsistency(t *testing.T) {
@@ -446,6 +490,75 @@ func TestPoolSelfConsistency(t *testing.T) {
 				evid.R.Label("cross-change-message", 1)
 			}
 		}
+		// old uncertified change heights: valid commits for the block preceding a validator-set change that lies more than 100
+		// blocks below the precommitted height (the gossip rule lets them in because the next height starts new parameters)
+		if pc > 101 {
+			for _, k := range n.ParamHeights() {
+				if k < 2 || k-1 <= cert || k-1 >= pc-100 {
+					continue
+				}
+				h := k - 1
+				p, err := n.CurrentParams(h)
+				hd, err2 := n.Chain.DataAccess().GetBlockHeaderByHeight(h)
+				if err != nil || err2 != nil {
+					continue
+				}
+				perm := rapid.Permutation(p.Idx).Draw(t, "oldPerm")
+				cnt := rapid.IntRange(1, len(perm)).Draw(t, "oldSigners")
+				for _, ix := range perm[:cnt] {
+					sc := certificate.NewSingleCommit(hd, keys[ix].Addr, node.ChainID, keys[ix].BLSPriv)
+					res := n.Exec.VerifSingleCommitValidator(&p2p.Message{Data: encodeCommits(sc)})
+					hist = append(hist, fmt.Sprintf("gossip valid single commit for old change height %d (precommitted %d) signer=%d -> %v", h, pc, ix, res))
+				}
+				evid.R.Label("old-uncertified-change-height-commits", 1)
+			}
+		}
+		// relabelled commits: a genuine commit of an active validator for a neighbouring block, relayed with its height field
+		// rewritten to a height inside the accepted window (needs no key)
+		if pc > cert+1 && tip > 2 {
+			for i := rapid.IntRange(0, 2).Draw(t, "relabelled"); i > 0; i-- {
+				lo := cert + 1
+				if pc > 100 && pc-99 > lo {
+					lo = pc - 99
+				}
+				if lo >= pc {
+					break
+				}
+				h := rapid.Uint32Range(lo, pc).Draw(t, "relabelHeight") // the height the commit claims
+				from := h - 1
+				if h < tip && rapid.Bool().Draw(t, "relabelFromAbove") {
+					from = h + 1
+				}
+				if from == 0 {
+					continue
+				}
+				p, err := n.CurrentParams(from)
+				hd, err2 := n.Chain.DataAccess().GetBlockHeaderByHeight(from)
+				if err != nil || err2 != nil {
+					continue
+				}
+				signer := rapid.SampledFrom(p.Idx).Draw(t, "relabelSigner")
+				genuine := certificate.NewSingleCommit(hd, keys[signer].Addr, node.ChainID, keys[signer].BLSPriv)
+				res := n.Exec.VerifSingleCommitValidator(&p2p.Message{Data: rawCommitsMessage(relabelled(genuine, h))})
+				hist = append(hist, fmt.Sprintf("gossip relabelled single commit: signed for block %d, height field %d, signer %d -> %v", from, h, signer, res))
+				invalidOffered = true
+				evid.R.Label("relabelled-height-commit", 1)
+			}
+		}
+		// broadcast rounds (what the certificate ticker does: clean up, select, mark as gossiped, publish): the pool must stay a
+		// SET of commits whatever was selected how often
+		if rounds := rapid.IntRange(0, 3).Draw(t, "broadcastRounds"); rounds > 0 {
+			for i := 0; i < rounds; i++ {
+				_ = n.Exec.VerifBroadcastCertificate() // clean-up, selection, publish attempt (fails without a started network)
+				// the same round with a successful publish: what was selected is marked as gossiped
+				if cur, err := n.CurrentParams(n.Tip().Header.Height); err == nil {
+					pool := n.Exec.VerifCertificatePool()
+					pool.Upgrade(pool.Select(pc, len(cur.Idx)))
+				}
+			}
+			hist = append(hist, fmt.Sprintf("%d certificate broadcast rounds", rounds))
+			evid.R.Label("broadcast-rounds", 1)
+		}
 		// own certification (what the generator does on finalization)
 		if rapid.Bool().Draw(t, "certify") && pc > 0 {
 			from := rapid.Uint32Range(0, pc-1).Draw(t, "from")
@@ -466,7 +579,15 @@ func TestPoolSelfConsistency(t *testing.T) {
 			if err != nil {
 				t.Fatalf("pool holds commits for height %d whose parameters are gone\n%s", h, strings.Join(hist, "\n"))
 			}
+			seen := map[string]bool{}
 			for _, sc := range commits {
+				if seen[string(sc.ValidatorAddress())] {
+					t.Fatalf("pool holds two single commits of one validator for height %d\n%s", h, strings.Join(hist, "\n"))
+				}
+				seen[string(sc.ValidatorAddress())] = true
+				if sc.Height() != h {
+					t.Fatalf("pool lists a single commit with height field %d under height %d\n%s", sc.Height(), h, strings.Join(hist, "\n"))
+				}
 				k := node.KeyByAddr(sc.ValidatorAddress())
 				active := false
 				for _, ix := range p.Idx {
@@ -485,6 +606,14 @@ func TestPoolSelfConsistency(t *testing.T) {
 			}
 			if len(commits) < len(p.Idx) {
 				strictSubset = true
+			}
+		}
+		if os.Getenv("C06_DEBUG") != "" && strings.Contains(strings.Join(hist, "|"), "old change height") {
+			fmt.Println(strings.Join(hist[len(hist)-12:], "\n"), "\n-----")
+			for h := uint32(1); h <= 20; h++ {
+				if c := n.Exec.VerifPoolCommits(h); len(c) > 0 {
+					fmt.Printf("pool h=%d: %d commits\n", h, len(c))
+				}
 			}
 		}
 		ac, err := n.Exec.GetAggregateCommit()
@@ -585,4 +714,120 @@ func TestRegressDuplicateCertify(t *testing.T) {
 		t.Fatalf("own aggregate (height %d) rejected: %v", ac.Height, err)
 	}
 	evid.R.Case("regress-duplicate-certify", true, func() any { return "3 validators threshold 3; Certify(0,1) by two of them" }, "regress")
+}
+
+
+// (c) certification lagging more than 100 blocks behind finality: single commits for the block that precedes a validator-set
+// change enter the pool while that height is recent, the chain grows by more than 100 finalized blocks without any
+// certificate, and the certificate ticker keeps re-selecting and re-publishing those old commits. The pool must remain a set,
+// and what the node assembles from it must pass its own verification and be accepted in a block.
+func TestPoolLaggingCertification(t *testing.T) {
+	rapid.Check(t, func(t *rapid.T) {
+		nVal := rapid.IntRange(3, 6).Draw(t, "validators")
+		g := node.DrawParams(t, nVal, false, "genesis")
+		for len(g.Idx) < 2 {
+			g = node.DrawParams(t, nVal, false, "genesis")
+		}
+		n, err := node.New(node.Config{Genesis: *g, BatchSize: 8})
+		if err != nil {
+			t.Fatalf("node: %v", err)
+		}
+		defer n.Close()
+		keys := node.Keys()
+		var hist []string
+		apply := func(sp node.Spec) {
+			if _, err := n.Apply(sp); err != nil {
+				t.Fatalf("apply: %v\n%s", err, strings.Join(hist, "\n"))
+			}
+		}
+		pre := 100 + rapid.IntRange(2, 12).Draw(t, "prefix")
+		for i := 0; i < pre; i++ {
+			apply(node.Spec{Script: node.Script{Salt: uint32(i % 3)}})
+		}
+		next := node.DrawParams(t, 7, false, "chg")
+		apply(node.Spec{Script: node.Script{Salt: 9, Next: next}})
+		c := n.Tip().Header.Height // the block authenticating the change; new parameters from c+1
+		hist = append(hist, fmt.Sprintf("genesis validators=%v weights=%v cert=%d; block %d changes to validators=%v weights=%v cert=%d", g.Idx, g.Weights, g.Cert, c, next.Idx, next.Weights, next.Cert))
+		for i := 0; i < 40; i++ {
+			if _, pc, _ := n.Heights(); pc > c {
+				break
+			}
+			apply(node.Spec{Script: node.Script{Salt: uint32(i % 3)}})
+		}
+		_, pc, cert := n.Heights()
+		if pc <= c {
+			return // finality did not pass the change (parameter sets with very high thresholds); nothing to test
+		}
+		p, err := n.CurrentParams(c)
+		hd, err2 := n.Chain.DataAccess().GetBlockHeaderByHeight(c)
+		if err != nil || err2 != nil {
+			t.Fatalf("params/header of %d: %v %v", c, err, err2)
+		}
+		perm := rapid.Permutation(p.Idx).Draw(t, "signers")
+		k := rapid.IntRange(1, len(perm)).Draw(t, "k")
+		for _, ix := range perm[:k] {
+			sc := certificate.NewSingleCommit(hd, keys[ix].Addr, node.ChainID, keys[ix].BLSPriv)
+			n.Exec.VerifSingleCommitValidator(&p2p.Message{Data: encodeCommits(sc)})
+		}
+		if got := len(n.Exec.VerifPoolCommits(c)); got != k {
+			t.Fatalf("%d valid single commits for the recent height %d gossiped, %d in the pool (precommitted %d, certified %d)\n%s", k, c, got, pc, cert, strings.Join(hist, "\n"))
+		}
+		hist = append(hist, fmt.Sprintf("%d of %d validators of height %d gossip their commit while precommitted=%d (weight %d, threshold %d)", k, len(perm), c, pc, weightOf(p, perm[:k]), p.Cert))
+		for i := 0; i < 160; i++ {
+			if _, pc, _ := n.Heights(); pc > c+101+uint32(rapid.IntRange(0, 6).Draw(t, "beyond")) {
+				break
+			}
+			apply(node.Spec{Script: node.Script{Salt: uint32(i % 3)}})
+			if i%25 == 24 && rapid.Bool().Draw(t, "roundWhileGrowing") {
+				broadcastRound(n)
+			}
+		}
+		_, pc, cert = n.Heights()
+		rounds := rapid.IntRange(1, 4).Draw(t, "rounds")
+		for i := 0; i < rounds; i++ {
+			broadcastRound(n)
+		}
+		hist = append(hist, fmt.Sprintf("tip=%d precommitted=%d certified=%d; %d broadcast rounds", n.Tip().Header.Height, pc, cert, rounds))
+		commits := n.Exec.VerifPoolCommits(c)
+		seen := map[string]bool{}
+		for _, sc := range commits {
+			if seen[string(sc.ValidatorAddress())] {
+				t.Fatalf("pool holds two single commits of one validator for height %d after the broadcast rounds\n%s", c, strings.Join(hist, "\n"))
+			}
+			seen[string(sc.ValidatorAddress())] = true
+		}
+		old := pc > c+100
+		if old && len(commits) != k {
+			t.Fatalf("commits for height %d (next height starts new parameters, still uncertified) in the pool: %d, gossiped %d\n%s", c, len(commits), k, strings.Join(hist, "\n"))
+		}
+		ac, err := n.Exec.GetAggregateCommit()
+		if err != nil {
+			t.Fatalf("GetAggregateCommit: %v\n%s", err, strings.Join(hist, "\n"))
+		}
+		if verr := n.Exec.VerifVerifyAggregateCommit(n.Store(), ac); verr != nil {
+			t.Fatalf("the node rejects the aggregate commit it assembled itself (height %d, bits %x): %v\n%s", ac.Height, ac.AggregationBits, verr, strings.Join(hist, "\n"))
+		}
+		if !ac.Empty() {
+			if w := weightOf(p, perm[:k]); ac.Height == c && w < p.Cert {
+				t.Fatalf("aggregate commit for height %d assembled from weight %d below the threshold %d\n%s", c, w, p.Cert, strings.Join(hist, "\n"))
+			}
+			if _, err := n.Apply(node.Spec{Agg: ac}); err != nil {
+				t.Fatalf("block carrying the node's own aggregate commit rejected: %v\n%s", err, strings.Join(hist, "\n"))
+			}
+		}
+		evid.R.Case(strings.Join(hist, "|"), old && !ac.Empty(), func() any {
+			return map[string]any{"kind": "pool-lagging", "history": hist, "aggregateHeight": ac.Height}
+		}, "pool-lagging", fmt.Sprintf("lag>100-%v", old), fmt.Sprintf("aggregate-empty-%v", ac.Empty()))
+	})
+}
+
+// broadcastRound: one tick of the certificate ticker with a successful publish (clean-up and selection by the engine; what
+// was selected is then marked as gossiped).
+func broadcastRound(n *node.Node) {
+	_ = n.Exec.VerifBroadcastCertificate()
+	_, pc, _ := n.Heights()
+	if cur, err := n.CurrentParams(n.Tip().Header.Height); err == nil {
+		pool := n.Exec.VerifCertificatePool()
+		pool.Upgrade(pool.Select(pc, len(cur.Idx)))
+	}
 }
